@@ -14,7 +14,9 @@ predicates of the input history:
              accepted, STP not yet seen);
 * `mustHold` the UTMI transmitter presented a byte in the previous cycle that was not accepted
              (`tx_valid ∧ ¬tx_ready`): UTMI obliges it to keep `tx_valid` up;
-* `dones`    ghost counter: number of past cycles in which the register window showed `done`.
+* `dones`    ghost counter: number of past cycles in which the register window showed `done`;
+* `acc04`, `acc0A`  ghosts: the values requested for registers 0x04 / 0x0A by the control inputs of the
+             most recent cycle in which the register window accepted a write request.
 
 The hypotheses refer only to what the respective party can see: the PHY-side ones to the pins and
 to the PHY's own bus parser (`PhyRegs.bus`, a function of the pin history), the UTMI-side one to
@@ -28,6 +30,8 @@ structure Env where
   tlen     : Nat := 0
   mustHold : Bool := false
   dones    : Nat := 0
+  acc04    : Nat := 0
+  acc0A    : Nat := 0
 deriving DecidableEq, Repr, Inhabited
 
 def PhyBus.isIdle : PhyBus → Bool
@@ -48,12 +52,14 @@ def presented (b : PhyBus) (prevDir dir : Bool) (dataO : Nat) : Bool :=
      | .wantData _ => true
      | _ => false)
 
-def Env.step (e : Env) (b : PhyBus) (winDone : Bool) (i : UtmiIn) (o : UtmiOut) : Env :=
+def Env.step (e : Env) (b : PhyBus) (winDone accepted : Bool) (i : UtmiIn) (o : UtmiOut) : Env :=
   { prevDir := i.phy.dir
     waited := if presented b e.prevDir i.phy.dir o.dataO && !i.phy.nxt then e.waited + 1 else 0
     tlen := if b.isTx then e.tlen + 1 else 0
     mustHold := i.txValid && !o.txReady
-    dones := e.dones + (if winDone then 1 else 0) }
+    dones := e.dones + (if winDone then 1 else 0)
+    acc04 := if accepted then functionControl i.ctrl else e.acc04
+    acc0A := if accepted then otgControl i.ctrl else e.acc0A }
 
 structure World where
   u : Utmi := {}
@@ -68,7 +74,7 @@ def World.step (cfg : Config) (x : World) (i : UtmiIn) : World :=
   let r := x.u.step cfg i
   { u := r.1
     p := x.p.step i.phy.dir i.phy.nxt r.2.dataO r.2.stp
-    e := x.e.step x.p.bus x.u.win.done i r.2 }
+    e := x.e.step x.p.bus x.u.win.done (x.u.win.st == .idle && (x.u.ctlOut i.ctrl).writeReq) i r.2 }
 
 def World.run (cfg : Config) : World → List UtmiIn → World
   | x, [] => x
@@ -144,11 +150,16 @@ theorem LiveOk_append (cfg : Config) (K T : Nat) (x : World) (a b : List UtmiIn)
 
 /-! ## The coherence invariant -/
 
+/-- The pair latched by the register window is a control register with the value that the control
+inputs requested for it in the cycle the write was accepted. -/
+def Latched (x : World) : Prop :=
+  (x.u.win.curAddr = 4 ∧ x.u.win.curWrite = x.e.acc04) ∨ (x.u.win.curAddr = 10 ∧ x.u.win.curWrite = x.e.acc0A)
+
 /-- What holds in every busy state of the register window: the control translator reports busy, the
-transmit translator is idle and has not claimed the bus, the latched address is one of the two
-control registers, `done` is low, and the PHY's registers still equal the shadow registers. -/
+transmit translator is idle and has not claimed the bus, the latched pair is a control register
+with the value requested for it at acceptance, `done` is low, and the PHY's registers still equal the shadow registers. -/
 def BusyCommon (x : World) : Prop :=
-  x.u.ctl.busy = true ∧ x.u.tx = ⟨.idle, false⟩ ∧ (x.u.win.curAddr = 4 ∨ x.u.win.curAddr = 10) ∧
+  x.u.ctl.busy = true ∧ x.u.tx = ⟨.idle, false⟩ ∧ Latched x ∧
   x.u.win.done = false ∧ x.p.r04 = x.u.ctl.cur04 ∧ x.p.r0A = x.u.ctl.cur0A
 
 /-- **Coherence** of link and PHY: per state of the register window, where the PHY's bus parser is,
@@ -159,7 +170,7 @@ def Coh (x : World) : Prop :=
   | .idle =>
     x.u.win.dataOut = 0 ∧ x.u.win.stop = false ∧
     ((x.u.win.done = true ∧ x.u.ctl.busy = true ∧ x.u.tx = ⟨.idle, false⟩ ∧ x.p.bus = .idle ∧
-        (x.u.win.curAddr = 4 ∨ x.u.win.curAddr = 10) ∧
+        Latched x ∧
         x.p.r04 = (if x.u.win.curAddr = 4 then x.u.win.curWrite else x.u.ctl.cur04) ∧
         x.p.r0A = (if x.u.win.curAddr = 10 then x.u.win.curWrite else x.u.ctl.cur0A))
      ∨ (x.u.win.done = false ∧ x.u.ctl.busy = false ∧ x.p.r04 = x.u.ctl.cur04 ∧ x.p.r0A = x.u.ctl.cur0A ∧
